@@ -57,6 +57,11 @@ def labels_partition(
         weight_nodes=weight_nodes, weight_edges=weight_edges
     )
 
+    if not winfo["edge_weights"]:
+        # no indices at all (e.g. only scalars) -> nothing to propagate
+        # labels along, round robin partition instead (c.f. path_kahypar)
+        return [i % max(parts, 1) for i in range(n)]
+
     sites = list(hg.nodes)
     neighbs = collections.defaultdict(set)
     max_edge_weight = max(winfo["edge_weights"])
